@@ -115,8 +115,16 @@ def _key(node):
 
 
 class Tx:
+    """Translates expressions / conditions / statement lists into the deep embedding of Model.v.
+
+    The output is NORMALISED so that rewrites which do not change what is computed give the same
+    tree: local temporaries are inlined, `not`, `or`, `and`, `>`, `>=`, `!=`, chained comparisons
+    and if/else are all expressed as a chain of  SIf <atomic test> <then> <else>  with atomic tests
+    CLt / CLe / CEq / CIsClose0.  Evaluation order is preserved (operands that could raise - a
+    division - make the translator refuse where an operand swap would be needed)."""
+
     def __init__(self, env, consts, callees=None):
-        self.env = list(env)          # list of keys; index = variable number
+        self.env = {k: "(EVar %d)" % i for i, k in enumerate(env)}   # key -> Coq expr
         self.consts = consts
         self.callees = callees or {}  # python name -> (coq constant, arity)
 
@@ -127,7 +135,7 @@ class Tx:
         k = _key(n)
         if k is not None:
             if k in self.env:
-                return "(EVar %d)" % self.env.index(k)
+                return self.env[k]
             if k in self.consts:
                 return "(EConst (%d))" % self.consts[k]
             raise Unsupported("unknown name %s" % k)
@@ -143,36 +151,58 @@ class Tx:
         raise Unsupported("expression " + ast.dump(n)[:80])
 
     def cond(self, n):
+        """-> nested tuples: (lt|le|eq|gt|ge|ne, a, b) | (isclose0, a) | (or|and, c, d) | (not, c)"""
         if isinstance(n, ast.Compare):
-            ops = {ast.Lt: "CLt", ast.LtE: "CLe", ast.Gt: "CGt", ast.GtE: "CGe", ast.Eq: "CEq", ast.NotEq: "CNe"}
+            ops = {ast.Lt: "lt", ast.LtE: "le", ast.Gt: "gt", ast.GtE: "ge", ast.Eq: "eq", ast.NotEq: "ne"}
             parts = []
             left = n.left
-            for op, right in zip(n.ops, n.comparators):
+            for i, (op, right) in enumerate(zip(n.ops, n.comparators)):
                 if type(op) not in ops:
                     raise Unsupported("comparison " + type(op).__name__)
-                parts.append("(%s %s %s)" % (ops[type(op)], self.expr(left), self.expr(right)))
+                if i > 0 and "EDiv" in self.expr(left):
+                    raise Unsupported("chained comparison re-using an operand that may raise")
+                parts.append((ops[type(op)], self.expr(left), self.expr(right)))
                 left = right
             out = parts[-1]
             for p in reversed(parts[:-1]):
-                out = "(CAnd %s %s)" % (p, out)
+                out = ("and", p, out)
             return out
         if isinstance(n, ast.BoolOp):
-            c = "COr" if isinstance(n.op, ast.Or) else "CAnd"
+            c = "or" if isinstance(n.op, ast.Or) else "and"
             vs = [self.cond(v) for v in n.values]
             out = vs[-1]
             for p in reversed(vs[:-1]):
-                out = "(%s %s %s)" % (c, p, out)
+                out = (c, p, out)
             return out
         if isinstance(n, ast.UnaryOp) and isinstance(n.op, ast.Not):
-            return "(CNot %s)" % self.cond(n.operand)
+            return ("not", self.cond(n.operand))
         if (isinstance(n, ast.Call) and isinstance(n.func, ast.Attribute) and n.func.attr == "isclose"
                 and isinstance(n.func.value, ast.Name) and n.func.value.id == "math"):
             if len(n.args) != 2 or n.keywords:
                 raise Unsupported("math.isclose with tolerances")
             if _intval(n.args[1]) != 0 and not (_key(n.args[1]) in self.consts and self.consts[_key(n.args[1])] == 0):
                 raise Unsupported("math.isclose against something other than 0.0")
-            return "(CIsClose0 %s)" % self.expr(n.args[0])
+            return ("isclose0", self.expr(n.args[0]))
         raise Unsupported("condition " + ast.dump(n)[:80])
+
+    def mk_if(self, c, t, k):
+        tag = c[0]
+        if tag == "not":
+            return self.mk_if(c[1], k, t)
+        if tag == "or":
+            return self.mk_if(c[1], t, self.mk_if(c[2], t, k))
+        if tag == "and":
+            return self.mk_if(c[1], self.mk_if(c[2], t, k), k)
+        if tag in ("gt", "ge"):
+            if "EDiv" in c[1] or "EDiv" in c[2]:
+                raise Unsupported("operand swap around a division")
+            return self.mk_if(("lt" if tag == "gt" else "le", c[2], c[1]), t, k)
+        if tag == "ne":
+            return self.mk_if(("eq", c[1], c[2]), k, t)
+        if tag == "isclose0":
+            return "(SIf (CIsClose0 %s) %s %s)" % (c[1], t, k)
+        coq = {"lt": "CLt", "le": "CLe", "eq": "CEq"}[tag]
+        return "(SIf (%s %s %s) %s %s)" % (coq, c[1], c[2], t, k)
 
     def exn(self, n):
         if isinstance(n, ast.Call):
@@ -208,11 +238,12 @@ class Tx:
             return "(SRaise %s)" % self.exn(s.exc)
         if isinstance(s, ast.If):
             c = self.cond(s.test)
-            saved = list(self.env)
-            t = self.body(s.body)           # must leave the function (body() fails otherwise)
-            self.env = saved
+            saved = dict(self.env)
+            t = self.body(list(s.body) + rest)      # a branch that falls through continues with the rest
+            self.env = dict(saved)
             k = self.body(list(s.orelse) + rest)
-            return "(SIf %s %s %s)" % (c, t, k)
+            self.env = saved
+            return self.mk_if(c, t, k)
         if isinstance(s, (ast.Assign, ast.AnnAssign)):
             if isinstance(s, ast.Assign):
                 if len(s.targets) != 1:
@@ -225,8 +256,10 @@ class Tx:
             if tgt.id in self.env or tgt.id in self.consts:
                 raise Unsupported("re-assignment of %s" % tgt.id)
             e = self.expr(val)
-            self.env.append(tgt.id)
-            return "(SLet %s %s)" % (e, self.body(rest))
+            if "EDiv" in e:
+                raise Unsupported("temporary holding a division (could raise out of order)")
+            self.env[tgt.id] = e            # inlined: the sub-language has no side effects
+            return self.body(rest)
         raise Unsupported("statement " + type(s).__name__)
 
 
@@ -394,3 +427,961 @@ def gen(ctx):
                 f.write(text)
     ctx.extra["generated_digests"] = dig
     return True
+
+
+# =========================================================================== float helpers
+
+NAN = float("nan")
+INF = float("inf")
+
+
+def fhex(x):
+    """Canonical bit-exact text of a float (all NaNs identified)."""
+    if x != x:
+        return "nan"
+    return float(x).hex()
+
+
+def unhex(s):
+    return NAN if s == "nan" else float.fromhex(s)
+
+
+def same(a, b):
+    return fhex(a) == fhex(b)
+
+
+def cfloat(x):
+    if x != x:
+        return "nan"
+    if x == INF:
+        return "infinity"
+    if x == -INF:
+        return "neg_infinity"
+    return "(%s)%%float" % float(x).hex()
+
+
+def cq(fr):
+    return "(%d # %d)%%Q" % (fr.numerator, fr.denominator)
+
+
+def cfval(x):
+    if x != x:
+        return "NaN"
+    if x == INF:
+        return "PInf"
+    if x == -INF:
+        return "NInf"
+    return "(Fin %s)" % cq(fractions.Fraction(x))
+
+
+def in_range(x):
+    """The property's range, judged independently of the implementation."""
+    return isinstance(x, (int, float)) and x == x and 0.0 <= x <= 100.0
+
+
+def dbfs_ok(d):
+    return d == d and (-30.0 <= d <= 0.0 or d == -144.0)
+
+
+def ulps(x, k):
+    for _ in range(abs(k)):
+        x = math.nextafter(x, INF if k > 0 else -INF)
+    return x
+
+
+EXN = {"ValueError": "ValueError", "ProtocolError": "ProtocolError", "ZeroDivisionError": "ZeroDivisionError"}
+
+
+def exn_name(ex):
+    from pyatv import exceptions
+    if type(ex) is exceptions.ProtocolError:
+        return "ProtocolError"
+    if type(ex) is ValueError:
+        return "ValueError"
+    if type(ex) is ZeroDivisionError:
+        return "ZeroDivisionError"
+    return "Other:" + type(ex).__name__
+
+
+def cexn(name):
+    return EXN.get(name, "OtherError")
+
+
+# =========================================================================== implementation drivers
+
+def call_fun(name, args):
+    """Real function on real floats (or Fractions). -> ("ok", value) | ("raise", exn name)"""
+    from pyatv.protocols.airplay import utils
+    from pyatv import support
+    f = {"map_range": support.map_range, "pct_to_dbfs": utils.pct_to_dbfs, "dbfs_to_pct": utils.dbfs_to_pct}[name]
+    try:
+        return ("ok", f(*args))
+    except Exception as ex:  # noqa
+        return ("raise", exn_name(ex))
+
+
+class _Listener:
+    def __init__(self, sink):
+        self.sink = sink
+
+    def volume_update(self, old, new):
+        self.sink(("push", fhex(old), fhex(new)))
+
+    def outputdevices_update(self, old, new):
+        pass
+
+
+def _stub_class():
+    from pyatv import interface
+
+    class StubAudio(interface.Audio):
+        """A protocol that reports whatever it is told and records what it is given."""
+
+        def __init__(self):
+            self.reported = 0.0
+            self.received = []
+
+        @property
+        def volume(self):
+            return self.reported
+
+        async def set_volume(self, level):
+            self.received.append(level)
+
+    return StubAudio
+
+
+async def drive_stub(value):
+    """facade over a stub protocol: read with the protocol reporting `value`, then set `value`.
+    -> dict(read=("ok",hex)|("raise",name), write=("ok",[hex...])|("raise",name,[hex...]))"""
+    from pyatv.const import Protocol
+    from pyatv.core.facade import FacadeAudio
+    from pyatv.core.protocol import MessageDispatcher
+
+    fa = FacadeAudio(MessageDispatcher())
+    stub = _stub_class()()
+    fa.register(stub, Protocol.MRP)
+    stub.reported = value
+    try:
+        rd = ("ok", fhex(fa.volume))
+    except Exception as ex:  # noqa
+        rd = ("raise", exn_name(ex))
+    try:
+        await fa.set_volume(value)
+        wr = ("ok", [fhex(x) for x in stub.received])
+    except Exception as ex:  # noqa
+        wr = ("raise", exn_name(ex), [fhex(x) for x in stub.received])
+    return {"read": rd, "write": wr}
+
+
+async def drive_raop(ops, streaming):
+    """Real FacadeAudio + real RaopAudio on a fake playback manager.
+    ops: list of ["set",hex] | ["up"] | ["down"] | ["read"] | ["report",hex] | ["pump"] | ["inject",hex]
+    -> list (per op) of event lists; events are tuples of strings."""
+    from pyatv.const import Protocol
+    from pyatv.core import ProtocolStateDispatcher, StateMessage, UpdatedState
+    from pyatv.core.facade import FacadeAudio
+    from pyatv.core.protocol import MessageDispatcher
+    from pyatv.protocols.raop import RaopAudio
+
+    cur = []
+    phase = {"p": "op"}
+
+    class Context:
+        def __init__(self):
+            self._v = None
+
+        @property
+        def volume(self):
+            return self._v
+
+        @volume.setter
+        def volume(self, v):
+            cur.append(("dev" if phase["p"] == "op" else "echo", fhex(v)))
+            self._v = v
+
+    class FakeStream:
+        def __init__(self, context):
+            self.context = context
+
+        async def set_volume(self, v):     # does not suspend: the model treats one call as atomic
+            cur.append(("dev", fhex(v)))
+            self.context._v = v
+
+    class PM:
+        def __init__(self):
+            self.context = Context()
+            self.stream_client = FakeStream(self.context) if streaming else None
+
+    loop = asyncio.get_event_loop()
+
+    def on_exc(lp, context):
+        ex = context.get("exception")
+        cur.append(("swallowed", exn_name(ex) if ex is not None else "Other:none"))
+
+    loop.set_exception_handler(on_exc)
+    cd = MessageDispatcher()
+    fa = FacadeAudio(cd)
+    lst = _Listener(cur.append)
+    fa.listener = lst
+    pm = PM()
+    ra = RaopAudio(pm, ProtocolStateDispatcher(Protocol.RAOP, cd))
+    fa.register(ra, Protocol.RAOP)
+    real_set = ra.set_volume
+
+    async def spy_set(level):
+        cur.append(("fwd", fhex(level)))
+        await real_set(level)
+
+    ra.set_volume = spy_set
+    out = []
+    for op in ops:
+        del cur[:]
+        phase["p"] = "op"
+        try:
+            if op[0] == "set":
+                await fa.set_volume(unhex(op[1]))
+            elif op[0] == "up":
+                await fa.volume_up()
+            elif op[0] == "down":
+                await fa.volume_down()
+            elif op[0] == "read":
+                cur.append(("ret", fhex(fa.volume)))
+            elif op[0] == "report":
+                cd.dispatch(UpdatedState.Volume, StateMessage(Protocol.Companion, UpdatedState.Volume, unhex(op[1])))
+            elif op[0] == "inject":
+                pm.context._v = unhex(op[1])
+            elif op[0] == "pump":
+                phase["p"] = "pump"
+                for _ in range(3):
+                    await asyncio.sleep(0)
+            else:
+                raise RuntimeError("bad op %r" % (op,))
+        except Exception as ex:  # noqa
+            cur.append(("exc", exn_name(ex)))
+        out.append(list(cur))
+    del lst
+    return out
+
+
+async def drive_mrp(vabs, vrel, ops):
+    """Real FacadeAudio + real MrpAudio on a fake MrpProtocol whose device answers as scripted.
+    ops: ["report", f32hex] | ["set", hex, answer|None] | ["up", answer|None] | ["down", answer|None] | ["read"]
+    -> (model_ops, events): model_ops has the reports as the resulting MrpAudio._volume."""
+    from pyatv.const import Protocol
+    from pyatv.core import ProtocolStateDispatcher
+    from pyatv.core.facade import FacadeAudio
+    from pyatv.core.protocol import MessageDispatcher
+    from pyatv.protocols.mrp import MrpAudio, messages, protobuf
+
+    cur = []
+    loop = asyncio.get_event_loop()
+    pending = {"answer": None, "hid": 0, "tasks": []}
+
+    def vol_msg(dv):
+        m = messages.create(protobuf.VOLUME_DID_CHANGE_MESSAGE)
+        m.inner().outputDeviceUID = "uid"
+        m.inner().volume = dv
+        return m
+
+    class FakeProtocol:
+        def __init__(self):
+            di = messages.create(protobuf.DEVICE_INFO_MESSAGE)
+            di.inner().deviceUID = "uid"
+            self.device_info = di
+
+        def listen_to(self, t, f):
+            pass
+
+        def _answer(self):
+            if pending["answer"] is not None:
+                dv = pending["answer"]
+                pending["answer"] = None
+                loop.call_soon(lambda: pending["tasks"].append(asyncio.ensure_future(ma._volume_did_change(vol_msg(dv)))))
+
+        async def send(self, msg):
+            if msg.type == protobuf.SEND_HID_EVENT_MESSAGE:
+                pending["hid"] += 1
+                if pending["hid"] % 2 == 1:
+                    cur.append(("key",))
+                else:
+                    self._answer()
+            elif msg.type == protobuf.SET_VOLUME_MESSAGE:
+                cur.append(("sent", fhex(msg.inner().volume)))
+                self._answer()
+
+        async def send_and_receive(self, msg, **kw):
+            return msg
+
+    cd = MessageDispatcher()
+    fa = FacadeAudio(cd)
+    lst = _Listener(cur.append)
+    fa.listener = lst
+    ma = MrpAudio(FakeProtocol(), ProtocolStateDispatcher(Protocol.MRP, cd))
+    ma._volume_controls_available = True
+    ma._volume_controls_absolute = vabs
+    ma._volume_controls_relative = vrel
+    fa.register(ma, Protocol.MRP)
+    real_set = ma.set_volume
+
+    async def spy_set(level):
+        cur.append(("fwd", fhex(level)))
+        await real_set(level)
+
+    ma.set_volume = spy_set
+    mops, out = [], []
+
+    async def settle():
+        for _ in range(4):
+            await asyncio.sleep(0)
+
+    for op in ops:
+        del cur[:]
+        before = fhex(ma._volume)
+        try:
+            if op[0] == "report":
+                await ma._volume_did_change(vol_msg(unhex(op[1])))
+                await settle()
+                mops.append(["report", fhex(ma._volume)])
+                out.append([e for e in cur if e[0] not in ("push", "sent")])
+                continue
+            pending["answer"] = None if (op[0] == "read" or op[-1] is None) else unhex(op[-1])
+            if op[0] == "set":
+                await asyncio.wait_for(fa.set_volume(unhex(op[1])), 60)
+            elif op[0] == "up":
+                await asyncio.wait_for(fa.volume_up(), 60)
+            elif op[0] == "down":
+                await asyncio.wait_for(fa.volume_down(), 60)
+            elif op[0] == "read":
+                cur.append(("ret", fhex(fa.volume)))
+            else:
+                raise RuntimeError("bad op %r" % (op,))
+        except Exception as ex:  # noqa
+            cur.append(("exc", exn_name(ex)))
+        pending["answer"] = None
+        await settle()
+        mops.append([op[0]] + ([op[1]] if op[0] == "set" else []))
+        out.append([e for e in cur if e[0] not in ("push", "sent")])
+        if fhex(ma._volume) != before:
+            mops.append(["report", fhex(ma._volume)])
+            out.append([])
+    del lst
+    return mops, out
+
+
+# =========================================================================== the oracle
+# Judges the property text on what the implementation did.  Returns a list of (key, what).
+
+def judge_stub(value, res):
+    errs = []
+    ok = in_range(value)
+    rd, wr = res["read"], res["write"]
+    if rd[0] == "ok":
+        r = unhex(rd[1])
+        if not in_range(r):
+            errs.append(("C20:read:out-of-range-returned", "audio.volume returned %r" % r))
+        elif not same(r, value) and not (r == value):
+            errs.append(("C20:read:value-altered", "protocol reported %r, audio.volume returned %r" % (value, r)))
+    else:
+        if rd[1] != "ProtocolError":
+            errs.append(("C20:read:wrong-exception", "audio.volume raised %s for reported %r" % (rd[1], value)))
+        elif ok:
+            errs.append(("C20:read:in-range-rejected", "audio.volume raised ProtocolError for reported %r" % value))
+    got = [unhex(x) for x in wr[-1]]
+    for g in got:
+        if not in_range(g):
+            errs.append(("C20:write:out-of-range-forwarded", "set_volume(%r) handed %r to the protocol" % (value, g)))
+    if wr[0] == "ok":
+        if ok and not (len(got) == 1 and got[0] == value):
+            errs.append(("C20:write:level-altered", "set_volume(%r) handed %r to the protocol" % (value, got)))
+        if not ok and not got:
+            errs.append(("C20:write:out-of-range-accepted", "set_volume(%r) returned normally" % value))
+    else:
+        if wr[1] != "ProtocolError":
+            errs.append(("C20:write:wrong-exception", "set_volume(%r) raised %s" % (value, wr[1])))
+        elif ok:
+            errs.append(("C20:write:in-range-rejected", "set_volume(%r) raised ProtocolError" % value))
+    return errs
+
+
+def judge_raop(ops, events):
+    errs = []
+    nan_state = False        # the context holds NaN because some side reported NaN as the level
+    ctx_bad = False          # the context holds an injected device-side dBFS above 0
+    expected = None          # level last set by the user and not touched since
+    for op, evs in zip(ops, events):
+        kind = op[0]
+        if kind == "report":
+            expected = None
+            continue
+        if kind == "inject":
+            v = unhex(op[1])
+            nan_state = v != v
+            ctx_bad = v == v and v > 0.0
+            expected = None
+            continue
+        if kind == "pump":
+            ech = [unhex(e[1]) for e in evs if e[0] == "echo"]
+            if ech:
+                nan_state = ech[-1] != ech[-1]
+                ctx_bad = False
+            continue
+        fw = [unhex(e[1]) for e in evs if e[0] == "fwd"]
+        dv = [unhex(e[1]) for e in evs if e[0] == "dev"]
+        ex = [e[1] for e in evs if e[0] == "exc"]
+        rt = [unhex(e[1]) for e in evs if e[0] == "ret"]
+        area = {"set": "write", "read": "read", "up": "step", "down": "step"}[kind]
+        poisoned = nan_state or ctx_bad
+        for e in ex:
+            if e != "ProtocolError":
+                errs.append(("C20:%s:wrong-exception" % area, "%s raised %s" % (kind, e)))
+        for g in fw:
+            if not in_range(g):
+                if kind == "set":
+                    errs.append(("C20:write:out-of-range-forwarded", "set_volume(%s) handed %r to RaopAudio.set_volume" % (op[1], g)))
+                elif g != g and nan_state:
+                    errs.append(("C20:step:raop:nan-report-forwarded",
+                                 "volume_%s after a NaN level report handed NaN to RaopAudio.set_volume and on to the device" % kind))
+                else:
+                    errs.append(("C20:step:leaves-range", "volume_%s handed %r to RaopAudio.set_volume" % (kind, g)))
+        for d in dv:
+            if not dbfs_ok(d) and not (d != d and nan_state):
+                errs.append(("C20:%s:dbfs-out-of-range" % area, "%s sent %r dBFS to the device" % (kind, d)))
+        for r in rt:
+            if not in_range(r):
+                errs.append(("C20:read:out-of-range-returned", "audio.volume returned %r" % r))
+        if kind == "set":
+            lv = unhex(op[1])
+            if in_range(lv):
+                if "ProtocolError" in ex:
+                    errs.append(("C20:write:in-range-rejected", "set_volume(%r) raised ProtocolError" % lv))
+                elif not ex and not (len(fw) == 1 and fw[0] == lv):
+                    errs.append(("C20:write:level-altered", "set_volume(%r) handed %r to the protocol" % (lv, fw)))
+                expected = lv if not ex else None
+            else:
+                if not ex and not fw:
+                    errs.append(("C20:write:out-of-range-accepted", "set_volume(%r) returned normally" % lv))
+        elif kind in ("up", "down"):
+            expected = None
+            if "ProtocolError" in ex and not poisoned:
+                errs.append(("C20:step:in-range-rejected", "volume_%s raised ProtocolError from a valid state" % kind))
+        elif kind == "read":
+            if "ProtocolError" in ex and not poisoned:
+                errs.append(("C20:read:in-range-rejected", "audio.volume raised ProtocolError in a valid state"))
+            if rt and expected is not None and not (rt[0] == expected):
+                err = abs(rt[0] - expected)
+                if err <= TINY:
+                    errs.append(("C20:roundtrip:float-inexact",
+                                 "set_volume(%r) then audio.volume returned %r (|error| %.3g)" % (expected, rt[0], err)))
+                else:
+                    errs.append(("C20:roundtrip:deviation",
+                                 "set_volume(%r) then audio.volume returned %r (|error| %.3g)" % (expected, rt[0], err)))
+        if dv:
+            nan_state = dv[-1] != dv[-1]
+            ctx_bad = False
+    return errs
+
+
+def judge_mrp(mops, events):
+    errs = []
+    vol = 0.0
+    for op, evs in zip(mops, events):
+        kind = op[0]
+        if kind == "report":
+            vol = unhex(op[1])
+            continue
+        fw = [unhex(e[1]) for e in evs if e[0] == "fwd"]
+        ex = [e[1] for e in evs if e[0] == "exc"]
+        rt = [unhex(e[1]) for e in evs if e[0] == "ret"]
+        area = {"set": "write", "read": "read", "up": "step", "down": "step"}[kind]
+        for e in ex:
+            if e != "ProtocolError":
+                errs.append(("C20:%s:wrong-exception" % area, "%s raised %s" % (kind, e)))
+        for g in fw:
+            if not in_range(g):
+                if kind == "set":
+                    errs.append(("C20:write:out-of-range-forwarded", "set_volume(%s) handed %r to MrpAudio.set_volume" % (op[1], g)))
+                elif not in_range(vol):
+                    errs.append(("C20:step:mrp:out-of-range-report-forwarded",
+                                 "device reported level %r; volume_%s handed %r to MrpAudio.set_volume and on to the device" % (vol, kind, g)))
+                else:
+                    errs.append(("C20:step:leaves-range", "level %r; volume_%s handed %r to MrpAudio.set_volume" % (vol, kind, g)))
+        for r in rt:
+            if not in_range(r):
+                errs.append(("C20:read:out-of-range-returned", "audio.volume returned %r" % r))
+            elif not (r == vol):
+                errs.append(("C20:read:value-altered", "device level %r, audio.volume returned %r" % (vol, r)))
+        if kind == "set":
+            lv = unhex(op[1])
+            if in_range(lv):
+                if "ProtocolError" in ex:
+                    errs.append(("C20:write:in-range-rejected", "set_volume(%r) raised ProtocolError" % lv))
+                elif not ex and not (len(fw) == 1 and fw[0] == lv):
+                    errs.append(("C20:write:level-altered", "set_volume(%r) handed %r to the protocol" % (lv, fw)))
+            elif not ex and not fw:
+                errs.append(("C20:write:out-of-range-accepted", "set_volume(%r) returned normally" % lv))
+        elif kind == "read":
+            if "ProtocolError" in ex and in_range(vol):
+                errs.append(("C20:read:in-range-rejected", "audio.volume raised ProtocolError for level %r" % vol))
+        else:
+            if "ProtocolError" in ex:
+                errs.append(("C20:step:in-range-rejected", "volume_%s raised ProtocolError" % kind))
+    return errs
+
+
+def judge_convert(samples_pct, samples_dbfs):
+    """Monotonicity / closure / inversion of the two conversions on sorted finite samples.
+    -> list of (key, what, witness) ; witness = dict(pct=[hex..], dbfs=[hex..]) re-judgeable alone."""
+    errs = []
+    prev = None
+    for x in sorted(samples_pct):
+        w = {"pct": [fhex(x)], "dbfs": []}
+        r = call_fun("pct_to_dbfs", [x])
+        if r[0] != "ok":
+            errs.append(("C20:convert:in-range-raises", "pct_to_dbfs(%r) raised %s" % (x, r[1]), w))
+            continue
+        d = r[1]
+        if not dbfs_ok(d):
+            errs.append(("C20:convert:out-of-range", "pct_to_dbfs(%r) = %r" % (x, d), w))
+        if prev is not None and d < prev[1]:
+            errs.append(("C20:convert:not-monotonic", "pct_to_dbfs(%r) = %r > pct_to_dbfs(%r) = %r" % (prev[0], prev[1], x, d),
+                         {"pct": [fhex(prev[0]), fhex(x)], "dbfs": []}))
+        prev = (x, d)
+    prev = None
+    for d in sorted(samples_dbfs):
+        w = {"pct": [], "dbfs": [fhex(d)]}
+        r = call_fun("dbfs_to_pct", [d])
+        if r[0] != "ok":
+            errs.append(("C20:convert:in-range-raises", "dbfs_to_pct(%r) raised %s" % (d, r[1]), w))
+            continue
+        p = r[1]
+        if not in_range(p):
+            errs.append(("C20:convert:out-of-range", "dbfs_to_pct(%r) = %r" % (d, p), w))
+        if prev is not None and p < prev[1]:
+            errs.append(("C20:convert:not-monotonic", "dbfs_to_pct(%r) = %r > dbfs_to_pct(%r) = %r" % (prev[0], prev[1], d, p),
+                         {"pct": [], "dbfs": [fhex(prev[0]), fhex(d)]}))
+        prev = (d, p)
+        if in_range(p) and p != 0.0:
+            b = call_fun("pct_to_dbfs", [p])
+            if b[0] == "ok" and b[1] != d:
+                err = abs(b[1] - d)
+                if err <= TINY:
+                    errs.append(("C20:roundtrip:float-inexact", "dbfs_to_pct(%r) = %r converts back to %r" % (d, p, b[1]), w))
+                else:
+                    errs.append(("C20:roundtrip:deviation", "dbfs_to_pct(%r) = %r converts back to %r" % (d, p, b[1]), w))
+    return errs
+
+
+# =========================================================================== case generation
+
+def special_floats():
+    xs = [0.0, -0.0, 5e-324, -5e-324, 2.2250738585072014e-308, 1e-320, 1e-300, 1e-17, 1e-9, 0.1, 1.0, 2.5,
+          4.999999999999999, 5.0, 5.000000000000001, 33.0, 33.5, 50.0, 94.99999999999999, 95.0, 95.00000000000001,
+          99.99999999999999, 100.0, 100.00000000000001, 100.5, 105.0, 150.0, 1e9, 1e308, 1.7976931348623157e308,
+          -1e-300, -1e-9, -0.5, -1.0, -5.0, -20.1, -29.999999999999996, -30.0, -30.000000000000004, -45.0, -50.0,
+          -144.0, -150.0, -1e308, INF, -INF, NAN]
+    return xs
+
+
+def gen_floats(rng, n):
+    """Mostly-valid stream (in and around [0,100] and [-30,0]) plus a hostile stream."""
+    out = []
+    for _ in range(n):
+        r = rng.random()
+        if r < 0.40:
+            out.append(rng.uniform(0.0, 100.0))
+        elif r < 0.55:
+            out.append(rng.uniform(-30.0, 0.0))
+        elif r < 0.65:
+            out.append(round(rng.uniform(0.0, 100.0), rng.choice([0, 1, 2])))
+        elif r < 0.78:
+            base = rng.choice([0.0, 5.0, 95.0, 100.0, -30.0, -144.0, 33.0, 50.0])
+            out.append(ulps(base, rng.randint(-6, 6)))
+        elif r < 0.86:
+            out.append(rng.choice([1, -1]) * 10.0 ** rng.uniform(-320, 3))
+        elif r < 0.93:
+            out.append(rng.uniform(-200.0, 300.0))
+        else:
+            out.append(struct.unpack("<d", struct.pack("<Q", rng.getrandbits(64)))[0])
+    return out
+
+
+def pick_level(rng, hostile):
+    r = rng.random()
+    if hostile and r < 0.5:
+        return rng.choice([NAN, INF, -INF, -0.5, -5.0, -50.0, 100.00000000000001, 105.0, 150.0, 1e308, -1e-320,
+                           rng.uniform(-300, 400)])
+    if r < 0.3:
+        return float(rng.randrange(0, 101))
+    if r < 0.5:
+        return rng.randrange(0, 1001) / 10.0
+    if r < 0.6:
+        return rng.choice([0.0, -0.0, 5e-324, 1e-9, 2.5, 4.999999999999999, 5.0, 95.0, 95.00000000000001, 99.99999999999999, 100.0])
+    return rng.uniform(0.0, 100.0)
+
+
+def gen_raop_history(rng, hostile):
+    n = rng.randint(1, 12)
+    ops = []
+    for _ in range(n):
+        r = rng.random()
+        if r < 0.22:
+            ops.append(["set", fhex(pick_level(rng, hostile))])
+        elif r < 0.40:
+            ops.append(["up"])
+        elif r < 0.58:
+            ops.append(["down"])
+        elif r < 0.78:
+            ops.append(["read"])
+        elif r < 0.90:
+            ops.append(["pump"])
+        elif r < 0.96:
+            ops.append(["report", fhex(pick_level(rng, hostile))])
+        else:
+            if hostile:
+                d = rng.choice([1.0, 0.5, 5e-324, NAN, INF, -INF, -1e308, rng.uniform(-200, 50)])
+            else:
+                d = rng.choice([-144.0, -30.0, 0.0, -0.0, rng.uniform(-30.0, 0.0), rng.uniform(-150.0, -30.0)])
+            ops.append(["inject", fhex(d)])
+    return ops
+
+
+def f32(x):
+    if x != x or x in (INF, -INF):
+        return x
+    try:
+        return struct.unpack("<f", struct.pack("<f", x))[0]
+    except OverflowError:
+        return INF if x > 0 else -INF
+
+
+def pick_devvol(rng, hostile):
+    """Device-side volume (fraction 0..1, a protobuf float32)."""
+    r = rng.random()
+    if hostile and r < 0.5:
+        return f32(rng.choice([NAN, INF, -INF, -0.5, -0.05, -0.45, 1.5, 1.05, 1.000001, 3e38, -1e-40, rng.uniform(-3, 4)]))
+    if r < 0.4:
+        return f32(rng.randrange(0, 101) / 100.0)
+    if r < 0.55:
+        return f32(rng.choice([0.0, 1.0, 0.05, 0.95, 0.951, 0.049, 0.999, 0.001]))
+    return f32(rng.uniform(0.0, 1.0))
+
+
+def gen_mrp_history(rng, hostile):
+    n = rng.randint(1, 10)
+    ops = []
+    for _ in range(n):
+        r = rng.random()
+        if r < 0.2:
+            ops.append(["report", fhex(pick_devvol(rng, hostile))])
+        elif r < 0.4:
+            lv = pick_level(rng, hostile)
+            ans = pick_devvol(rng, True) if (hostile and rng.random() < 0.5) else f32(lv / 100.0 if lv == lv else lv)
+            ops.append(["set", fhex(lv), fhex(ans)])
+        elif r < 0.6:
+            ops.append(["up", fhex(pick_devvol(rng, hostile))])
+        elif r < 0.8:
+            ops.append(["down", fhex(pick_devvol(rng, hostile))])
+        else:
+            ops.append(["read"])
+    return ops
+
+
+# =========================================================================== Coq encoding
+
+FN = {"map_range": "FMapRange", "pct_to_dbfs": "FPct", "dbfs_to_pct": "FDbfs", "facade_read": "FFacRead",
+      "facade_write": "FFacWrite", "raop_up": "FRaopUp", "raop_down": "FRaopDown", "mrp_up": "FMrpUp", "mrp_down": "FMrpDown"}
+
+
+def cres(r):
+    if r[0] == "ok":
+        return "(Ok %s)" % cfloat(r[1])
+    return "(Raise %s)" % cexn(r[1])
+
+
+def cevent(e):
+    k = e[0]
+    if k == "ret":
+        return "(eRet %s)" % cfloat(unhex(e[1]))
+    if k == "exc":
+        return "(eExc %s)" % cexn(e[1])
+    if k == "fwd":
+        return "(eFwd %s)" % cfloat(unhex(e[1]))
+    if k == "dev":
+        return "(eDev %s)" % cfloat(unhex(e[1]))
+    if k == "echo":
+        return "(eEcho %s)" % cfloat(unhex(e[1]))
+    if k == "key":
+        return "eKey"
+    if k == "push":
+        return "(ePush %s %s)" % (cfloat(unhex(e[1])), cfloat(unhex(e[2])))
+    if k == "swallowed":
+        return "(eSwallowed %s)" % cexn(e[1])
+    raise ValueError(e)
+
+
+def crop(op):
+    k = op[0]
+    if k == "set":
+        return "(rSet %s)" % cfloat(unhex(op[1]))
+    if k == "report":
+        return "(rReport %s)" % cfloat(unhex(op[1]))
+    if k == "inject":
+        return "(rInject %s)" % cfloat(unhex(op[1]))
+    return {"up": "rUp", "down": "rDown", "read": "rRead", "pump": "rPump"}[k]
+
+
+def cmop(op):
+    k = op[0]
+    if k == "set":
+        return "(mSet %s)" % cfloat(unhex(op[1]))
+    if k == "report":
+        return "(mReport %s)" % cfloat(unhex(op[1]))
+    return {"up": "mUp", "down": "mDown", "read": "mRead"}[k]
+
+
+def cobs(events):
+    return common.clist([common.clist([cevent(e) for e in evs]) for evs in events])
+
+
+HEADER = ("From Coq Require Import ZArith QArith List PrimFloat.\nImport ListNotations.\n"
+          "From PV Require Import Common.Cases C20.Model C20.Gen C20.Check.\n")
+
+
+def coq_file(cases):
+    return (HEADER + "Definition cases : list ccase := [\n%s\n].\n"
+            "Eval vm_compute in (bad_indices check_case cases).\n" % ";\n".join(c[0] for c in cases))
+
+
+# =========================================================================== run one case (shared by run and replay)
+
+PUSH_OOR = 0   # informational: listener.volume_update(old, new) calls with new outside [0,100]
+
+
+def run_case(case):
+    """case: dict(kind=...).  Returns (errs, coq_term or None, canonical, nontrivial, sample)."""
+    k = case["kind"]
+    if k == "stub":
+        v = unhex(case["value"])
+        res = vloop.run(drive_stub, v)
+        errs = judge_stub(v, res)
+        acc_r, acc_w = res["read"][0] == "ok", res["write"][0] == "ok"
+        terms = []
+        rd = ("ok", unhex(res["read"][1])) if acc_r else ("raise", res["read"][1])
+        terms.append("CFun FFacRead [%s] %s" % (cfloat(v), cres(rd)))
+        if acc_w:
+            got = res["write"][1]
+            wr = ("ok", unhex(got[0])) if len(got) == 1 else ("raise", "Other:forwarded-%d-times" % len(got))
+        else:
+            wr = ("raise", res["write"][1])
+        terms.append("CFun FFacWrite [%s] %s" % (cfloat(v), cres(wr)))
+        terms.append("CGuard %s %s %s" % (cfval(v), cfloat(v), common.cbool(acc_r)))
+        return errs, terms, ("stub", fhex(v)), in_range(v), {"kind": k, "value": repr(v), "impl": res}
+    if k == "fun":
+        args = [unhex(a) for a in case["args"]]
+        r = call_fun(case["fn"], args)
+        term = "CFun %s %s %s" % (FN[case["fn"]], common.clist([cfloat(a) for a in args]), cres(r))
+        return [], [term], ("fun", case["fn"], tuple(case["args"])), r[0] == "ok", \
+            {"kind": k, "fn": case["fn"], "args": [repr(a) for a in args], "impl": [r[0], repr(r[1])]}
+    if k == "mapq":
+        args = [fractions.Fraction(a) for a in case["args"]]
+        r = call_fun("map_range", args)
+        if r[0] == "ok":
+            if not isinstance(r[1], fractions.Fraction):
+                return [], ["CMapQ [] (Raise OtherError)"], ("mapq", tuple(case["args"])), True, None
+            rr = "(Ok %s)" % cq(r[1])
+        else:
+            rr = "(Raise %s)" % cexn(r[1])
+        term = "CMapQ %s %s" % (common.clist([cq(a) for a in args]), rr)
+        return [], [term], ("mapq", tuple(case["args"])), r[0] == "ok", \
+            {"kind": k, "args": case["args"], "impl": [r[0], str(r[1])]}
+    if k == "raop":
+        ops = case["ops"]
+        ev = vloop.run(drive_raop, ops, bool(case.get("streaming", True)))
+        errs = judge_raop(ops, ev)
+        term = "CRaop %s %s" % (common.clist([crop(o) for o in ops]), cobs(ev))
+        nontriv = any(e[0] in ("dev", "ret") for evs in ev for e in evs)
+        global PUSH_OOR
+        PUSH_OOR += sum(1 for evs in ev for e in evs if e[0] == "push" and not in_range(unhex(e[2])))
+        return errs, [term], ("raop", json.dumps(ops), case.get("streaming", True)), nontriv, \
+            {"kind": k, "ops": ops, "impl_events": ev}
+    if k == "mrp":
+        mops, ev = vloop.run(drive_mrp, bool(case["abs"]), bool(case["rel"]), case["ops"])
+        errs = judge_mrp(mops, ev)
+        term = "CMrp %s %s %s %s %s" % (common.cbool(case["abs"]), common.cbool(case["rel"]), cfloat(0.0),
+                                        common.clist([cmop(o) for o in mops]), cobs(ev))
+        nontriv = any(e[0] in ("fwd", "ret", "key") for evs in ev for e in evs)
+        return errs, [term], ("mrp", case["abs"], case["rel"], json.dumps(case["ops"])), nontriv, \
+            {"kind": k, "abs": case["abs"], "rel": case["rel"], "ops": case["ops"], "model_ops": mops, "impl_events": ev}
+    raise ValueError("unknown case kind %r" % k)
+
+
+# =========================================================================== run
+
+def run(ctx):
+    gen_ok = gen(ctx)
+    import time as _t
+    t0 = _t.time()
+    ok = ctx.build_property()
+    ctx.note("coq build + Properties.v: %.1fs (includes waiting for the shared build lock)" % (_t.time() - t0))
+    if not ok and not ctx.broken:
+        ctx.tie_broken("coq-build", ctx.extra.get("build_log_tail", ""))
+    if ctx.thorough:
+        ctx.coqchk()
+    scale = 12 if ctx.thorough else 1
+    rng = ctx.rng
+    ctx.rule = ("corpus first; then (a) every special value (boundaries, +-0, subnormals, NaN, +-inf, neighbours by ulps), "
+                "a 0.1-step grid over [0,100] and [-30,0] and seeded samples (uniform, rounded decimals, ulp-neighbours of the "
+                "boundaries, log-uniform magnitudes, raw 64-bit patterns) through the real map_range / pct_to_dbfs / dbfs_to_pct, "
+                "the facade guards over a stub protocol and map_range on exact Fractions; (b) every volume_up/volume_down word "
+                "up to a fixed length from a grid of start levels on real FacadeAudio+RaopAudio and FacadeAudio+MrpAudio; "
+                "(c) seeded operation histories (set/up/down/read/report/pump/inject), a mostly-valid stream and a hostile stream. "
+                "non-trivial = the implementation produced a value / forwarded a level; distinct by canonical input")
+    cases = []
+
+    def add(case, src):
+        cases.append((case, src))
+
+    for name, c in common.load_corpus(PID):
+        add(c, "corpus")
+        ctx.count("corpus")
+
+    # (a) values
+    vals = list(special_floats())
+    vals += [i / 10.0 for i in range(0, 1001)]
+    vals += [-i / 10.0 for i in range(0, 301)]
+    for b in (0.0, 5.0, 95.0, 100.0, -30.0):
+        vals += [ulps(b, k) for k in range(-4, 5)]
+    vals += gen_floats(rng, 1500 * scale)
+    seen = set()
+    uniq = []
+    for v in vals:
+        h = fhex(v)
+        if h not in seen:
+            seen.add(h)
+            uniq.append(v)
+    for v in uniq:
+        add({"kind": "fun", "fn": "pct_to_dbfs", "args": [fhex(v)]}, "value")
+        add({"kind": "fun", "fn": "dbfs_to_pct", "args": [fhex(v)]}, "value")
+        add({"kind": "stub", "value": fhex(v)}, "value")
+    # map_range with arbitrary ranges (incl. invalid ones) on floats and on Fractions
+    for _ in range(300 * scale):
+        a = rng.choice([0.0, -30.0, 1.0, rng.uniform(-50, 50), float(rng.randint(-5, 5))])
+        b = rng.choice([100.0, 0.0, a, a + rng.uniform(0, 100), float(rng.randint(-5, 5)), ulps(a, 1)])
+        c = rng.choice([-30.0, 0.0, rng.uniform(-50, 50), float(rng.randint(-5, 5))])
+        d = rng.choice([0.0, 100.0, c, c + rng.uniform(0, 100), float(rng.randint(-5, 5))])
+        v = rng.choice([a, b, rng.uniform(min(a, b) - 1, max(a, b) + 1), (a + b) / 2, NAN, INF])
+        add({"kind": "fun", "fn": "map_range", "args": [fhex(x) for x in (v, a, b, c, d)]}, "map_range")
+        if all(x == x and abs(x) != INF for x in (v, a, b, c, d)):
+            add({"kind": "mapq", "args": [str(fractions.Fraction(x)) for x in (v, a, b, c, d)]}, "map_range")
+    for v in uniq[:400]:
+        if v == v and abs(v) != INF:
+            add({"kind": "mapq", "args": [str(fractions.Fraction(x)) for x in (v, 0.0, 100.0, -30.0, 0.0)]}, "map_range")
+
+    # (b) every up/down word from a grid of start levels
+    L = 5 if ctx.thorough else 4
+    starts = [None] + [float(x) for x in range(0, 101, 10)] + [2.5, 4.999999999999999, 97.5, 95.00000000000001, 33.0]
+    words = []
+    for n in range(1, L + 1):
+        for w in range(2 ** n):
+            words.append([("up" if (w >> i) & 1 else "down") for i in range(n)])
+    for st in starts:
+        for w in words:
+            ops = ([] if st is None else [["set", fhex(st)]])
+            for i, o in enumerate(w):
+                ops.append([o])
+                if (len(w) + i) % 3 == 0:
+                    ops.append(["pump"])
+                ops.append(["read"])
+            add({"kind": "raop", "ops": ops, "streaming": len(w) % 2 == 0}, "steps")
+    for st in [0.0, 0.02, 0.05, 0.33, 0.5, 0.951, 0.97, 1.0]:
+        for w in words:
+            if len(w) > 3:
+                continue
+            ops = [["report", fhex(f32(st))]]
+            cur = st
+            for o in w:
+                cur = min(cur + 0.05, 1.0) if o == "up" else max(cur - 0.05, 0.0)
+                ops.append([o, fhex(f32(cur))])
+                ops.append(["read"])
+            add({"kind": "mrp", "abs": True, "rel": False, "ops": ops}, "steps")
+    # (c) histories
+    for i in range(350 * scale):
+        add({"kind": "raop", "ops": gen_raop_history(rng, hostile=(i % 4 == 3)), "streaming": rng.random() < 0.6}, "history")
+    for i in range(250 * scale):
+        a, r = rng.choice([(True, False), (True, False), (True, True), (False, True), (False, False)])
+        add({"kind": "mrp", "abs": a, "rel": r, "ops": gen_mrp_history(rng, hostile=(i % 4 == 3))}, "history")
+    # set-then-read round trips (before and after the echo)
+    for v in uniq:
+        if in_range(v) and rng.random() < (1.0 if ctx.thorough else 0.35):
+            add({"kind": "raop", "ops": [["set", fhex(v)], ["read"], ["pump"], ["read"]], "streaming": rng.random() < 0.5}, "roundtrip")
+
+    terms = []      # (term text, case)
+    t0 = _t.time()
+    for case, src in cases:
+        errs, ts, canon, nontriv, sample = run_case(case)
+        ctx.case(canon, nontrivial=nontriv, sample=sample if (src != "value" or len(ctx.samples) < 3) else None)
+        ctx.count(src + ":" + case["kind"])
+        ctx.traces += 1
+        for key, what in errs:
+            ctx.violation(key, what, case)
+        for t in ts:
+            terms.append((t, case))
+
+    ctx.note("implementation runs + oracle: %d cases in %.1fs" % (len(cases), _t.time() - t0))
+    # conversions: monotone / closed / inverse on the sorted samples
+    pct_s = [v for v in uniq if in_range(v)]
+    dbfs_s = [v for v in uniq if v == v and -30.0 <= v <= 0.0]
+    for key, what, w in judge_convert(pct_s, dbfs_s):
+        ctx.violation(key, what, {"kind": "convert", "pct": w["pct"], "dbfs": w["dbfs"]})
+    ctx.count("convert:sorted-pct", len(pct_s))
+    ctx.count("convert:sorted-dbfs", len(dbfs_s))
+
+    # model / implementation correspondence inside Coq
+    if ok and gen_ok:
+        per = 700
+        items = []
+        for i in range(0, len(terms), per):
+            items.append(("cases_%03d" % (i // per), coq_file(terms[i:i + per])))
+        t0 = _t.time()
+        res = common.coq_run_many(items, ctx.pid)
+        ctx.note("model/implementation correspondence in Coq: %d terms in %d files, %.1fs" % (len(terms), len(items), _t.time() - t0))
+        for name, (rc, out) in sorted(res.items()):
+            bad = common.parse_eval_nat_list(out) if rc == 0 else None
+            if bad is None:
+                ctx.tie_broken("correspondence:" + name, out)
+            else:
+                base = int(name.split("_")[1]) * per
+                for b in bad[:5]:
+                    t, case = terms[base + b]
+                    ctx.tie_broken("correspondence:" + case["kind"], json.dumps({"case": case, "coq": t[:600]}))
+    ctx.extra["coq_correspondence_terms"] = len(terms)
+    ctx.extra["info_listener_pushes_outside_range"] = (
+        "%d volume_update(old, new) listener calls carried a level outside [0,100] (FacadeAudio._volume_changed forwards "
+        "whatever a protocol dispatches; not an observation point of C20, recorded for information only)" % PUSH_OOR)
+    ctx.trusted += [
+        "translator harness/c20.py gen(): Python ast -> coq/C20/Gen.v (deep-embedded trees; fail closed); coq/C20/Tie.v proves the trees denote the hand-written functions of Model.v in every number domain",
+        "hand-written state machines of FacadeAudio+RaopAudio and FacadeAudio+MrpAudio (coq/C20/Model.v rstep/mstep), tied by the differential run of this file evaluated in Coq (vm_compute on PrimFloat, bit-exact via float.hex)",
+        "binary64 arithmetic of CPython = Coq PrimFloat = Flocq binary_float 53 1024 (coq/C20/ModelB.v) - checked bit for bit on every case of this run; that the Flocq binary64 operations refine the rounded-real model (round-to-nearest-even of the exact result) on finite values is PROVED (coq/C20/LinkB.v, theorems C20_binary64_*), so no float axiom is assumed; Prim2SF (Coq.Floats.FloatOps) converts literals in the case files only",
+        "fake playback manager / stream client / MrpProtocol and stub Audio protocol in harness/c20.py; harness/vloop.py",
+    ]
+    ctx.assumptions += [
+        "a protocol's set_volume call is atomic with respect to queued listener callbacks (the fake stream client does not suspend)",
+        "MrpAudio._volume is taken as reported (round(inner.volume*100, 1) is not modelled; the reported value is an input)",
+        "math.isclose(x, 0.0) with default tolerances is x == 0.0 (checked on every sample incl. subnormals, NaN, infinities)",
+    ]
+
+
+def replay(ctx, path):
+    d = json.load(open(path))
+    case = d.get("replay", d)
+    if case.get("kind") == "convert":
+        errs = judge_convert([unhex(x) for x in case.get("pct", [])], [unhex(x) for x in case.get("dbfs", [])])
+        for key, what, w in errs:
+            print("property-error %s: %s" % (key, what))
+        return 1 if errs else 0
+    errs, ts, canon, nontriv, sample = run_case(case)
+    print(json.dumps(sample, indent=1, default=repr))
+    for key, what in errs:
+        print("property-error %s: %s" % (key, what))
+    return 1 if errs else 0
